@@ -219,7 +219,7 @@ _BUILTINS = {
     'divmod': divmod, 'abs': abs, 'bool': bool, 'float': float, 'any': any, 'all': all,
     'reversed': lambda x: list(reversed(x)), 'enumerate': lambda *a, **k: list(enumerate(*a, **k)),
     'zip': lambda *a: list(zip(*a)), 'isinstance': isinstance, 'iter': iter, 'next': lambda it, *d: next(iter(it), *d),
-    'None': None, 'True': True, 'False': False, 'round': round, 'repr': repr, 'hex': hex,
+    'None': None, 'True': True, 'False': False, 'round': round, 'repr': repr, 'hex': hex, 'vars': vars,
     'namedtuple': collections.namedtuple,
     'ValueError': ValueError, 'TypeError': TypeError, 'KeyError': KeyError, 'IndexError': IndexError,
     'AttributeError': AttributeError, 'LookupError': LookupError, 'UnicodeError': UnicodeError,
@@ -240,6 +240,7 @@ _SAFE_METHODS = {
 }
 
 
+import argparse as _argparse  # noqa: E402
 import itertools as _it  # noqa: E402
 import functools as _ft  # noqa: E402
 
@@ -286,6 +287,11 @@ def ev(node, env):
             return getattr(_ReStub, node.attr)
         if isinstance(base, Sym):
             return Sym(f'{base.name}.{node.attr}')
+        if isinstance(base, _argparse.Namespace) and hasattr(base, node.attr):
+            return getattr(base, node.attr)
+        if isinstance(base, (_argparse.ArgumentParser, _argparse._ArgumentGroup, _argparse._MutuallyExclusiveGroup)) and node.attr in (
+                'add_argument', 'add_argument_group', 'add_mutually_exclusive_group', 'parse_args', 'print_help'):
+            return getattr(base, node.attr)
         if node.attr in getattr(type(base), '_model', ()):   # model object supplied by a rule
             return getattr(base, node.attr)
         for typ, names in _SAFE_METHODS.items():
